@@ -231,7 +231,7 @@ class TraceVerdict:
 
 
 def validate_traces(pid, module, cfg, lines, reset_pred, nshards=None, timeout=900, dfs=False, xss="64m",
-                    heap="3g", name="tv"):
+                    heap="3g", name="tv", extra_files=None):
     """Validate ndjson `lines` against trace spec `module` (which reads the file named by the
     TRACE environment variable, keeps the high-water mark of consumed lines in TLC register 1 and
     prints <<"HWM", n>> from its POSTCONDITION). Returns TraceVerdict."""
@@ -246,6 +246,9 @@ def validate_traces(pid, module, cfg, lines, reset_pred, nshards=None, timeout=9
     jobs = []
     for i, sh in enumerate(shards):
         d = stage_spec(os.path.join(base, "s%03d" % i))
+        for fn, content in (extra_files or {}).items():
+            with open(os.path.join(d, fn), "w") as f:
+                f.write(content)
         tf = os.path.join(d, "trace.ndjson")
         with open(tf, "w") as f:
             f.write("\n".join(sh))
